@@ -70,9 +70,38 @@ func ruleDecimalExact(pkgs ...string) func(*Ctx) {
 		for _, p := range pkgs {
 			want[p] = true
 		}
+		// helpers in other packages (methods of syntax-tree types, utilities) that the parser, the analyzer or the
+		// workspace call are part of the same path
+		reached := map[*ast.FuncDecl]bool{}
+		var work []*ast.FuncDecl
+		for _, fd := range c.P.AllFuncDecls() {
+			rel := strings.TrimPrefix(strings.TrimPrefix(c.P.pkgOf[fd].PkgPath, modPath), "/")
+			if want[rel] && rel != "internal/server" && fd.Body != nil {
+				work = append(work, fd)
+			}
+		}
+		for len(work) > 0 {
+			fd := work[len(work)-1]
+			work = work[:len(work)-1]
+			info := c.P.InfoFor(fd)
+			ast.Inspect(fd.Body, func(n ast.Node) bool {
+				if call, ok := n.(*ast.CallExpr); ok {
+					if fn, ok := calleeOf(info, call).(*types.Func); ok {
+						if d := c.P.declOf[fn]; d != nil && d.Body != nil && !reached[d] {
+							rel := strings.TrimPrefix(strings.TrimPrefix(c.P.pkgOf[d].PkgPath, modPath), "/")
+							if !want[rel] && rel != "internal/formatter" {
+								reached[d] = true
+								work = append(work, d)
+							}
+						}
+					}
+				}
+				return true
+			})
+		}
 		n := 0
 		for _, dc := range decimalCalls(c.P) {
-			if !want[dc.pkg] {
+			if !want[dc.pkg] && !reached[dc.fd] {
 				continue
 			}
 			n++
@@ -346,6 +375,123 @@ func ruleDecimalExponent(c *Ctx) {
 		}
 	}
 	c.census("D-EXPONENT", "decimal.NewFromString calls", n, 1)
+	// sink first: whatever is stored into the quantity of a syntax-tree amount is a value whose exponent was bounded -
+	// a parsed value behind a test of its own Exponent(), possibly negated; a value rescaled after the test (Shift,
+	// Mul, Pow, Div ...) is not bounded by it
+	preserving := map[string]bool{"Neg": true, "Abs": true, "Copy": true}
+	var bounded func(v ssa.Value, at *ssa.BasicBlock, seen map[ssa.Value]bool) (bool, string)
+	bounded = func(v ssa.Value, at *ssa.BasicBlock, seen map[ssa.Value]bool) (bool, string) {
+		if seen[v] {
+			return true, ""
+		}
+		seen[v] = true
+		for _, cc := range controlCondsPol(at) {
+			if condCallsOn(cc.Cond, v, "Exponent", map[ssa.Value]bool{}) {
+				return true, ""
+			}
+		}
+		switch x := v.(type) {
+		case *ssa.Phi:
+			for _, e := range x.Edges {
+				if ok, why := bounded(e, at, seen); !ok {
+					return false, why
+				}
+			}
+			return true, ""
+		case *ssa.Call:
+			cal := x.Common().StaticCallee()
+			if cal != nil && cal.Pkg != nil && cal.Pkg.Pkg.Path() == decimalPkg {
+				if preserving[cal.Name()] && len(x.Common().Args) > 0 {
+					return bounded(x.Common().Args[0], at, seen)
+				}
+				switch cal.Name() {
+				case "NewFromInt", "NewFromInt32":
+					return true, ""
+				}
+				return false, "the result of decimal." + cal.Name()
+			}
+			if cal != nil && inModule(cal) && cal.Blocks != nil {
+				for _, b := range cal.Blocks {
+					for _, ins := range b.Instrs {
+						if r, ok := ins.(*ssa.Return); ok {
+							for _, rv := range r.Results {
+								if types.TypeString(rv.Type(), nil) != decimalPkg+".Decimal" {
+									continue
+								}
+								if ok, why := bounded(rv, b, seen); !ok {
+									return false, why
+								}
+							}
+						}
+					}
+				}
+				return true, ""
+			}
+		case *ssa.Extract:
+			if call, ok := x.Tuple.(*ssa.Call); ok {
+				if cal := call.Common().StaticCallee(); cal != nil && inModule(cal) && cal.Blocks != nil {
+					for _, b := range cal.Blocks {
+						for _, ins := range b.Instrs {
+							if r, ok := ins.(*ssa.Return); ok && x.Index < len(r.Results) {
+								if k, isConst := r.Results[x.Index].(*ssa.Const); isConst && k.Value == nil {
+									continue
+								}
+								if ok, why := bounded(r.Results[x.Index], b, seen); !ok {
+									return false, why
+								}
+							}
+						}
+					}
+					return true, ""
+				}
+			}
+			return false, "a parsed value whose Exponent() is not tested on the way"
+		case *ssa.UnOp:
+			if x.Op == token.MUL {
+				if g, ok := x.X.(*ssa.Global); ok && g.Pkg != nil && g.Pkg.Pkg.Path() == decimalPkg {
+					return true, "" // decimal.Zero
+				}
+				if al, ok := x.X.(*ssa.Alloc); ok && al.Referrers() != nil {
+					for _, r := range *al.Referrers() {
+						if st, ok := r.(*ssa.Store); ok && st.Addr == ssa.Value(al) {
+							if ok, why := bounded(st.Val, st.Block(), seen); !ok {
+								// the test may also sit between the store into the variable and its use
+								return false, why
+							}
+						}
+					}
+					return true, ""
+				}
+			}
+		case *ssa.Const:
+			return true, ""
+		}
+		return false, "a value the rule cannot trace to a parsed number with a tested exponent"
+	}
+	ns := 0
+	for _, f := range c.P.ModuleFuncs() {
+		if f.Pkg != c.P.SSAPkg("internal/parser") && (f.Parent() == nil || f.Parent().Pkg != c.P.SSAPkg("internal/parser")) {
+			continue
+		}
+		for _, b := range f.Blocks {
+			for _, ins := range b.Instrs {
+				st, ok := ins.(*ssa.Store)
+				if !ok || types.TypeString(st.Val.Type(), nil) != decimalPkg+".Decimal" {
+					continue
+				}
+				fa, ok := st.Addr.(*ssa.FieldAddr)
+				if !ok || !strings.Contains(types.TypeString(fa.X.Type(), nil), "/internal/ast.") {
+					continue
+				}
+				ns++
+				ok2, why := bounded(st.Val, b, map[ssa.Value]bool{})
+				c.check(ok2, "D-EXPONENT", funcName(f), "quantity stored into the syntax tree", st.Pos(),
+					"the stored quantity is a parsed value behind a test of its own Exponent() (sign changes aside)",
+					"the quantity stored into the syntax tree is "+why+": the exponent bound was not applied to this value, so a document can make every later sum materialise a power of ten of its choosing")
+			}
+		}
+	}
+	c.census("D-EXPONENT", "quantities stored into the syntax tree by the parser", ns, 1)
 }
 
 // blockDominatedByCondOn: block b is dominated by a branch whose condition depends on a call to
